@@ -768,6 +768,43 @@ def post_c18_suffix(case, st):
 
 
 # ---------------------------------------------------------------------------------------------
+# reuse: the same text on a parser that was just left "dirty" by a refused parse
+
+DIRTY = [b'require ["copy", "x" ;', b'if anyof (true, header ["a" {', b'if true { foo; }', b'\n\n\nfoo;', b'keep', b'if header :is "a"',
+         b'require ["relational","regex","imap4flags","fileinto"]; if true { keep; ']
+_dirty_parser = [None, 0]
+
+
+def post_reuse(case, st):
+    """C03 / C02 / C18 on reused objects: verdict, error, error_pos and tree must equal the fresh parser's"""
+    if case.obs.verdict not in ("ACC", "REJ"):
+        return []
+    ns = seams.load()
+    if _dirty_parser[0] is None:
+        _dirty_parser[0] = ns.parser.Parser()
+    p = _dirty_parser[0]
+    _dirty_parser[1] += 1
+    d = DIRTY[_dirty_parser[1] % len(DIRTY)]
+    seams.run_parse(d, parser=p, want_tree=False)
+    o2 = seams.run_parse(case.text, parser=p)
+    st.executions += 2
+    o1 = case.obs
+    if (o2.verdict, o2.error, o2.error_pos, o2.tree) != (o1.verdict, o1.error, o1.error_pos, o1.tree):
+        what = "verdict" if o2.verdict != o1.verdict else ("tree" if o2.tree != o1.tree else "error-position")
+        prop = "C03" if what == "tree" else "C02"
+        last = None
+        for t in case.toks:
+            if t.kind == "id":
+                last = t.text.decode("ascii", "replace").lower()
+        v = viol(prop, "reused-parser:" + what, case, "REUSE", last if what == "tree" else None, None, None,
+                 "after a refused parse of %r the same parser gives %s %r for a text a fresh parser %s %r" % (
+                     d, o2.brief(), o2.error_pos, o1.brief(), o1.error_pos))
+        v["dirty_hex"] = d.hex()
+        return [v]
+    return []
+
+
+# ---------------------------------------------------------------------------------------------
 # C04 print/parse round trip
 
 
